@@ -36,7 +36,9 @@ pub fn run<C: Sync, A: Send>(
                             if i >= cases.len() {
                                 break;
                             }
+                            crate::watch::set_case(i);
                             f(i, &cases[i], &mut acc);
+                            crate::watch::idle();
                         }
                         acc
                     })
